@@ -408,6 +408,13 @@ func (c *ctx) followUp(p pre, ops []Op, d *db.DB, m *model.KV, dir, rdir, desc s
 			c.fail("later-call-after-fault", p, ops, fmt.Sprintf("%s: later %v returned v%d err=%v, model says v%d", desc, f, got, err, want), replay)
 			return
 		}
+		// a restart right after each later call, not only after the last: damage that the next save
+		// would paper over must be seen
+		copyDir(dir, rdir)
+		if got, err := recoverDump(rdir); err != nil || got != m.Key() {
+			c.fail("later-restart-after-fault", p, ops, fmt.Sprintf("%s: after later %v and a restart the file opens as %q err=%v, model %s", desc, f, got, err, m.Key()), replay)
+			return
+		}
 	}
 	if k := hx.DumpKey(d); k != m.Key() {
 		c.fail("later-state-after-fault", p, ops, fmt.Sprintf("%s: after later calls the database holds %s, model %s", desc, k, m.Key()), replay)
